@@ -21,7 +21,7 @@ import tempfile
 
 import numpy as np
 
-from .. import bus, cover, gen, world
+from .. import core, bus, cover, gen, world
 
 LEVEL = 'exploration'
 JOBS = {'quick': 4, 'thorough': 16}
@@ -32,7 +32,8 @@ REQUIRED_CLASSES = ('sizes:start-smaller', 'sizes:start-larger', 'sizes:tie', 'h
                     'routing:preparsed-own-order', 'call:repeated-same-list-object', 'end-molecule:attached-by-hand-named-like-another-species',
                     'reject:unknown-species', 'reject:malformed-pair', 'reject:index-out-of-range', 'reject:bad-deformation',
                     'reject:bad-hydrogen-flag', 'manager-guess:more-than-three-residues', 'manager-guess:start-smaller',
-                    'manager-guess:start-larger', 'manager-guess:three-residues-or-fewer')
+                    'manager-guess:start-larger', 'manager-guess:three-residues-or-fewer', 'stand-in:below-the-engine-front',
+                    'settings:warnings-as-errors', 'recovery:refused-under-caller-settings-then-called-again')
 RULE = ('(a) molecule pairs (either one larger or tie, random hydrogens in both) x restraint lists (empty, partial, duplicates, '
         'pairs on hydrogens) x ignore_hydrogens; (b) every (n1, n2) in 1..40 x 1..40 for the per-residue splitter [enumerated '
         'completely], random multi-residue molecules for the protein guesser; (c) generated 2-4 species systems x per-species '
@@ -111,7 +112,12 @@ def run_boundary(ctx, case):
                              [tuple(p) for p in restriction], sim_type))
             return mol2_positions
         return minimize_molecules
-    with bus.installed('minimize_molecules', make):
+    # the stand-in for the optimiser sits either at the name the alignment calls, or one level below (the pure-python
+    # engine), so that the library's own front of the engine - which warns that the compiled engine is missing - runs;
+    # in that arrangement the caller may have warnings turned into errors, is refused with that warning, and calls again
+    low = (case['batch'] % 2 == 1)
+    ctx.hit('stand-in:below-the-engine-front' if low else 'stand-in:at-the-name-the-alignment-calls')
+    with bus.installed('_minimize_molecules' if low else 'minimize_molecules', make):
         for it in range(50):
             mode = int(rng.integers(0, 3))
             if mode == 0:
@@ -150,7 +156,9 @@ def run_boundary(ctx, case):
                 w = {'n_start': n1, 'n_end': n2, 'pairs': pairs, 'ignore_hydrogens': ignore_h, 'hydrogens_start': sorted(hs), 'hydrogens_end': sorted(he),
                      'call_number': rep + 1, 'same_list_object_each_call': same_list}
                 try:
-                    ali.align_molecules(restrictions=pairs_obj if same_list else list(pairs), ignore_hydrogens=ignore_h)
+                    caller = core.next_settings(ctx, ('default', 'warnings-as-errors')) if low else 'default'
+                    w['caller_settings'] = caller
+                    core.under(ctx, caller, ali.align_molecules, restrictions=pairs_obj if same_list else list(pairs), ignore_hydrogens=ignore_h)
                 except Exception as exc:  # noqa
                     ctx.violation(f'alignment-raises:{type(exc).__name__}', str(exc)[:200], witness=w)
                     continue
